@@ -47,6 +47,22 @@ func c16Plugins() []plugin.Plugin {
 	}
 }
 
+// c16PluginsStatic: the same deprecated stanzas on an interface without any wildcard
+// (nothing about it depends on the system's addresses or routes - only on the clock).
+func c16PluginsStatic() []plugin.Plugin {
+	var out []plugin.Plugin
+	for _, p := range c16Plugins() {
+		if px, ok := p.(*plugin.Prefix); ok && px.Auto {
+			// in its place, a static non-deprecated prefix with the wildcard's constants
+			out = append(out, &plugin.Prefix{Prefix: netip.MustParsePrefix("2001:db8:d::/64"), OnLink: true, Autonomous: true,
+				ValidLifetime: 2 * time.Hour, PreferredLifetime: time.Hour})
+			continue
+		}
+		out = append(out, p)
+	}
+	return out
+}
+
 func c16Clamp(d time.Duration) time.Duration {
 	if d < 0 {
 		return 0
@@ -63,6 +79,9 @@ func (c16Addresser) LoopbackRoutes() ([]system.Route, error) { return nil, nil }
 
 func c16WireRun(t *testing.T, c c06Case) (steps int, log string, out [][2]string) {
 	c.plugins = c16Plugins
+	if c.StaticOnly {
+		c.plugins = c16PluginsStatic
+	}
 	system.VerifSetAddresser(c16Addresser{})
 	defer system.VerifSetAddresser(nil)
 	x, a, _ := c06Run(t, c)
@@ -123,7 +142,7 @@ func c16WireRun(t *testing.T, c c06Case) (steps int, log string, out [][2]string
 func TestVerifC16Wire(t *testing.T) {
 	r := ev.Begin("C16", "wire")
 	defer r.End(t)
-	r.Rule = "histories = all sequences of <=K events over {solicitation from ::, unicast solicitation, link change (re-initialisation), transient failure of the next scheduled multicast RA, IPv6 forwarding of the interface flips off/on} x gap {0.1, 2.9, 3.1, 6 s}, injected into the real Advertiser (min=max=4s; deprecated prefix valid 20s / preferred 10s, deprecated route 15s, epoch = start of the virtual clock; one non-deprecated prefix; and the ::/64 wildcard listed first, which expands to the deprecated stanza's /64 too) and followed by 8 quiet seconds; oracle on every RA handed to WriteTo: lifetimes = max(0, deadline - transmission time) exactly, never above the previous RA's, preferred<=valid, constants for the non-deprecated prefix; states = histories; non-trivial = history has >=1 event; distinct = distinct history"
+	r.Rule = "histories = all sequences of <=K events over {solicitation from ::, unicast solicitation, link change (re-initialisation), transient failure of the next scheduled multicast RA, IPv6 forwarding of the interface flips off/on} x gap {0.1, 2.9, 3.1, 6 s}, injected into the real Advertiser (min=max=4s; deprecated prefix valid 20s / preferred 10s, deprecated route 15s, epoch = start of the virtual clock; one non-deprecated prefix; and the ::/64 wildcard listed first, which expands to the deprecated stanza's /64 too; and, for histories of <=2 events in the quick tier, the same interface with a static prefix in the wildcard's place: no wildcard at all) and followed by 8 quiet seconds; oracle on every RA handed to WriteTo: lifetimes = max(0, deadline - transmission time) exactly, never above the previous RA's, preferred<=valid, constants for the non-deprecated prefix; states = histories; non-trivial = history has >=1 event; distinct = distinct history"
 	r.Assumptions = []string{"canonical goroutine schedule per history", "random delay draws at their default (0) answer"}
 	if r.Replay != nil {
 		var c c06Case
@@ -170,14 +189,20 @@ func TestVerifC16Wire(t *testing.T) {
 			}
 			c.Events = append(c.Events, e)
 		}
-		steps, _, vs := c16WireRun(t, c)
-		r.Case(c.String(), len(seq) > 0)
-		r.Count("states", 1)
-		r.Count("transitions", int64(steps))
-		r.Outcome(fmt.Sprint(len(vs) == 0))
-		r.Sample(map[string]any{"history": c.String(), "steps": steps})
-		for _, v := range vs {
-			r.Violation(v[0], "history "+c.String()+": "+v[1], c)
+		for _, static := range []bool{false, true} {
+			if static && len(seq) > 2 && !r.Thorough() {
+				continue // quick tier: the all-static interface for histories of <=2 events
+			}
+			c.StaticOnly = static
+			steps, _, vs := c16WireRun(t, c)
+			r.Case(c.String(), len(seq) > 0)
+			r.Count("states", 1)
+			r.Count("transitions", int64(steps))
+			r.Outcome(fmt.Sprint(len(vs) == 0))
+			r.Sample(map[string]any{"history": c.String(), "steps": steps})
+			for _, v := range vs {
+				r.Violation(v[0], "history "+c.String()+": "+v[1], c)
+			}
 		}
 		return true
 	})
